@@ -324,6 +324,18 @@ loop:
 			if !stop.keepWorking {
 				return
 			}
+			// The work-in-progress was canceled. Take back the buffer of any
+			// unsent outWork, forget what's left of dRange and wait for new
+			// work, instead of carrying on with the canceled work.
+			if outWork.buffer != nil {
+				for i := range buffers {
+					if buffers[i] == nil {
+						buffers[i] = outWork.buffer
+						break
+					}
+				}
+			}
+			input, output, outWork, dRange = reqc, nil, rWork{}, Range{}
 			continue loop
 
 		case inWork := <-input:
@@ -429,6 +441,11 @@ loop:
 			if !stop.keepWorking {
 				return
 			}
+			// The work-in-progress was canceled. Drop the old region of
+			// interest (and any pending work for it), so that we are ready to
+			// receive the next region of interest.
+			input, output = roic, nil
+			roi, work = Range{}, rWork{}
 			continue loop
 
 		case roi = <-input:
